@@ -2163,3 +2163,104 @@ def gen_loops():
                                  'end Opy.Gen', ''])
     data['create'] = dict(create=cr, build=bd)
     return texts, data
+
+
+# ------------------------------------------------------------------ History.save / History.load
+def _read_with_open(fn):
+    """-> (path expr, mode, handle name, body statements, number of other statements)"""
+    if fn is None:
+        return None, '', None, [], 1
+    stmts = [s for s in body_of(fn) if not (isinstance(s, ast.Expr) and isinstance(s.value, ast.Call) and ast.unparse(s.value.func).startswith('logger.'))]
+    extra = 0
+    found = None
+    alias = {}
+    for st in stmts:
+        if found is None and isinstance(st, ast.With) and len(st.items) == 1 and isinstance(st.items[0].context_expr, ast.Call) \
+                and ast.unparse(st.items[0].context_expr.func) == 'open' and isinstance(st.items[0].optional_vars, ast.Name):
+            c = st.items[0].context_expr
+            args = list(c.args) + [k.value for k in c.keywords if k.arg == 'mode']
+            path = args[0] if args else None
+            mode = args[1].value if len(args) > 1 and isinstance(args[1], ast.Constant) and isinstance(args[1].value, str) else ''
+            if any(k.arg not in ('mode', 'file') for k in c.keywords):
+                extra += 1
+            if path is None:
+                path = next((k.value for k in c.keywords if k.arg == 'file'), None)
+            found = (_Subst(alias).visit(copy.deepcopy(path)) if path is not None else None, mode, st.items[0].optional_vars.id, list(st.body))
+        elif found is None and _note_temp(st, alias):
+            continue
+        else:
+            extra += 1
+    if found is None:
+        return None, '', None, [], extra + 1
+    return found + (extra,)
+
+
+def _path_term(path, param):
+    if path is not None and ast.unparse(path) == param:
+        return '.param'
+    return f'(.other {lean_str(ast.unparse(path)[:60] if path is not None else "?")})'
+
+
+def read_save(fn):
+    param = fn.args.args[1].arg if fn is not None and len(fn.args.args) == 2 else 'file_name'
+    path, mode, h, body, extra = _read_with_open(fn)
+    dumped = '(.other "?")'
+    for st in body:
+        u = ' '.join(ast.unparse(st).split())
+        if u == f'pickle.dump(self, {h})' and dumped == '(.other "?")':
+            dumped = '.self'
+        elif u == f'pickle.dump(self.__dict__, {h})' and dumped == '(.other "?")':
+            dumped = '.dict'
+        else:
+            extra += 1
+    return f'{{ path := {_path_term(path, param)}, mode := {lean_str(mode)}, dumped := {dumped}, extraStmts := {extra} }}'
+
+
+def read_load(fn):
+    param = fn.args.args[1].arg if fn is not None and len(fn.args.args) == 2 else 'file_name'
+    path, mode, h, body, extra = _read_with_open(fn)
+    loaded = None
+    unp = upd = False
+    # the update may sit inside the `with` block or right after it (the file is only needed for the read)
+    tail = []
+    if fn is not None:
+        stmts = [s for s in body_of(fn)]
+        wi = next((i for i, s in enumerate(stmts) if isinstance(s, ast.With)), None)
+        if wi is not None:
+            tail = stmts[wi + 1:]
+            extra -= len([s for s in tail if not (isinstance(s, ast.Expr) and isinstance(s.value, ast.Call) and ast.unparse(s.value.func).startswith('logger.'))])
+    for st in list(body) + tail:
+        u = ' '.join(ast.unparse(st).split())
+        if isinstance(st, ast.Assign) and len(st.targets) == 1 and isinstance(st.targets[0], ast.Name) and ast.unparse(st.value) == f'pickle.load({h})' and not unp:
+            loaded = st.targets[0].id
+            unp = True
+        elif loaded and u == f'self.__dict__.update({loaded}.__dict__)' and not upd:
+            upd = True
+        elif isinstance(st, ast.Expr) and isinstance(st.value, ast.Call) and ast.unparse(st.value.func).startswith('logger.'):
+            continue
+        else:
+            extra += 1
+    b = lambda v: 'true' if v else 'false'
+    return f'{{ path := {_path_term(path, param)}, mode := {lean_str(mode)}, unpickles := {b(unp)}, updatesDictFromLoaded := {b(upd)}, extraStmts := {max(extra, 0)} }}'
+
+
+_old_gen_loops15 = gen_loops
+
+
+def gen_loops():
+    texts, data = _old_gen_loops15()
+    hp = f'{REPO}/opytimizer/utils/history.py'
+    sv = read_save(find_method(hp, 'History', 'save'))
+    ld = read_load(find_method(hp, 'History', 'load'))
+    texts['PersistDefs'] = '\n'.join(['-- GENERATED by harness/translate_loops.py from History.save and History.load. Do not edit.',
+                                      'import OpyVerif.Model.PersistProg', 'namespace Opy.Gen', 'open Opy', '',
+                                      f'def saveProg : SaveProg := {sv}', f'def loadProg : LoadProg := {ld}', '', 'end Opy.Gen', ''])
+    texts['Persist'] = '\n'.join(['-- GENERATED by harness/translate_loops.py: obligations re-decided on every build. Do not edit.',
+                                  'import OpyVerif.Generated.PersistDefs', 'namespace Opy.Gen', 'open Opy',
+                                  '/-- `History.save` writes the whole object to the file named by its argument -/',
+                                  'theorem saveProg_eq : saveProg = Expected.saveProg := by decide +kernel',
+                                  '/-- `History.load` reads the file named by its argument and merges the loaded attribute dictionary -/',
+                                  'theorem loadProg_eq : loadProg = Expected.loadProg := by decide +kernel',
+                                  'end Opy.Gen', ''])
+    data['persist'] = dict(save=sv, load=ld)
+    return texts, data
